@@ -10,6 +10,7 @@ import (
 	"path/filepath"
 	"runtime"
 	"runtime/debug"
+	"runtime/pprof"
 	"sort"
 	"strconv"
 	"strings"
@@ -74,7 +75,7 @@ type Prop struct {
 	// MinNonTrivial: fewer distinct non-trivial cases => inconclusive
 	MinNonTrivial int
 	// Mandatory behavioural counters: every one must be > 0 over the whole run, else inconclusive.
-	Mandatory []string
+	Mandatory  []string
 	Exhaustive bool
 }
 
@@ -228,6 +229,12 @@ func cmdWorker(args []string) int {
 	if p == nil {
 		fmt.Fprintln(os.Stderr, "unknown property", *prop)
 		return 2
+	}
+	if f := os.Getenv("VERIF_CPUPROFILE"); f != "" {
+		if fh, err := os.Create(f); err == nil {
+			_ = pprof.StartCPUProfile(fh)
+			defer pprof.StopCPUProfile()
+		}
 	}
 	total := p.Cases(*tier)
 	sr := &ShardResult{Shard: *shard, Stats: newStats(), Obs: map[string]int{}}
